@@ -15,6 +15,7 @@ AST (JSON):
   seg   = ["lit", text] | ["tag", name] | ["tag", name, default]
 A line always ends with "\n" unless it is the last line of the file (flag on the file)."""
 import os
+import json
 import re
 import sys
 
@@ -22,7 +23,7 @@ NAME_TAGS = ["STATENAME", "stateName", "STATE_NAME", "EVENTNAME", "eventName", "
              "ACTIONNAME", "actionName", "ACTION_NAME", "GUARDNAME", "guardName", "GUARD_NAME"]
 PROTO_NAME_TAGS = ["STRUCTNAME", "structName", "MSGNAME", "msgName", "PROTOMSGNAME", "protoMsgName"]
 GLOBAL_TAGS = ["STATEMACHINENAME", "stateMachineName", "STATEMACHINENAMEUPPER", "STATE_MACHINE_NAME", "CLASSNAME", "CLASS_NAME",
-               "NAMESPACE", "AUTHOR", "GROUP", "BRIEF", "DLL_EXPORT", "PYIFGENNAME", "STATE_0", "state_0"]
+               "NAMESPACE", "AUTHOR", "GROUP", "BRIEF", "DLL_EXPORT", "PYIFGENNAME", "STATE_0", "state_0", "ENUMS"]
 TRANS_TAGS = ["GUARDNAME", "guardName", "GUARD_NAME", "ACTIONNAME", "actionName", "ACTION_NAME",
               "NEXTSTATENAME", "nextStateName", "NEXT_STATE_NAME", "STATENAMEIFNEXTSTATE", "stateNameIfNextState", "STATE_NAME_IF_NEXT_STATE"]
 BLOCKS = {"PS": "PER_STATE", "PE": "PER_EVENT", "PA": "PER_ACTION", "PG": "PER_GUARD", "PASIG": "PER_ACTION_SIGNATURE",
@@ -240,6 +241,50 @@ def render_file(f):
     return out
 
 
+def preexpand_multiline(items, tag, value):
+    """The rule for a global tag whose value has several lines, applied to the template itself: the value's lines take the
+    tag's place, the text before the tag stays on the first of them, the text behind it follows the last, and every line
+    after the first is indented by as many blanks as the tag's line begins with.  Returns the new item list, or None where
+    this statement of the rule does not apply (two occurrences on a line, another tag before it, a tag inside a block)."""
+    vlines = value.rstrip("\n").split("\n")
+    if len(vlines) < 2:
+        return None
+    out = []
+    for it in items:
+        if it["k"] == "line":
+            idx = [i for i, sg in enumerate(it["segs"]) if sg[0] == "tag" and sg[1] == tag and len(sg) == 2]
+            if not idx:
+                out.append(it)
+                continue
+            if len(idx) > 1 or any(sg[0] == "tag" for sg in it["segs"][:idx[0]]):
+                return None
+            before, after = it["segs"][:idx[0]], it["segs"][idx[0] + 1:]
+            prefix = "".join(sg[1] for sg in before)
+            lead = " " * (len(prefix) - len(prefix.lstrip(" ")))
+            out.append(dict(k="line", segs=before + [["lit", vlines[0]]]))
+            for v in vlines[1:-1]:
+                out.append(dict(k="line", segs=[["lit", lead + v]]) if (lead + v) != "" else dict(k="blank", text=""))
+            out.append(dict(k="line", segs=[["lit", lead + vlines[-1]]] + after))
+        elif it["k"] == "if":
+            brs = []
+            for t, body in it["branches"]:
+                b = preexpand_multiline(body, tag, value)
+                if b is None:
+                    return None
+                brs.append([t, b])
+            els = it["else"]
+            if els is not None:
+                els = preexpand_multiline(els, tag, value)
+                if els is None:
+                    return None
+            out.append(dict(it, branches=brs, **{"else": els}))
+        else:
+            if tag in json.dumps(it):
+                return None
+            out.append(it)
+    return out
+
+
 def malform(r, lines):
     """the malformed stream: unclosed / stray / nested delimiters, doubled tags"""
     lines = list(lines)
@@ -293,6 +338,8 @@ def env_tables(gen, itf, names, insts, maxtab=14):
     """what the engine asks `gen` (a CStateMachineGenerator bound to the real language) about the interface's names"""
     have = [s.Name for s in itf.All()]
     env = dict(sig=[], memberInst=[], memberDecl=[], aggInit=[], doc=[], members=[], msgId=[], aggDefault=_try(gen.language.DefaultAggregateInitializer))
+    # the value of <<<ENUMS>>>: what the language back end declares for the interface's enumerations
+    env["enums"] = "".join(gen.language.DeclareEnum(e, '\t') for e in itf.Enums())
     for n in have:
         for wd in (False, True):
             env["sig"].append([n, wd, _try(gen.get_event_signature, n, wd)])
@@ -339,17 +386,19 @@ def with_eventless_rows(r, model):
 
 
 def engine_request(model, files_lines, itf, env, usertags):
+    env = dict(env)
+    enums = env.pop("enums", "")
     return dict(cmd="engine", smname=model["name"], ns=model["ns"], author="auth", group="grp", brief="brief", dclspc=model.get("dclspc", ""),
-                pyif="Transition Table", enums="",
+                pyif="Transition Table", enums=enums,
                 tt=tt_rows(model["tt"]),
                 structNames=list(itf.StructNames()), protoNames=list(itf.ProtocolStructNames()), msgNames=list(itf.MessageNames()),
                 userTags=[[k, py_str(v), isinstance(v, str)] for k, v in usertags.items()],
                 files=[[n, ls] for n, ls in files_lines], env=env)
 
 
-def spec_request(model, tpl, itf, usertags):
+def spec_request(model, tpl, itf, usertags, enums=""):
     return dict(cmd="spec", smname=model["name"], ns=model["ns"], author="auth", group="grp", brief="brief", dclspc=model.get("dclspc", ""),
-                pyif="Transition Table", enums="",
+                pyif="Transition Table", enums=enums,
                 tt=tt_rows(model["tt"]),
                 structNames=list(itf.StructNames()), protoNames=list(itf.ProtocolStructNames()), msgNames=list(itf.MessageNames()),
                 userTags=[[k, py_str(v)] for k, v in usertags.items()],
